@@ -25,7 +25,7 @@ type propCase struct {
 	Verif   int
 }
 
-var poolNames = [cs.PoolSize]string{"genesis", "b0", "b1", "b3", "sub-quorum", "relabel-view-9", "relabel-view-huge", "unknown-block", "repeated-signer", "genesis-view-7", "nil-signature", "b3-signers-relabelled", "b3-resplit", "genesis-with-signature", "b3-other-quorum"}
+var poolNames = [cs.PoolSize]string{"genesis", "b0", "b1", "b3", "sub-quorum", "relabel-view-9", "relabel-view-huge", "unknown-block", "repeated-signer", "genesis-view-7", "nil-signature", "b3-signers-relabelled", "b3-resplit", "genesis-with-signature", "b3-other-quorum", "b3-retyped"}
 
 func proposalProp(c propCase) common.Result {
 	w := cs.GetWorld(c.Scheme, c.N)
@@ -200,9 +200,51 @@ func genProposal(rt *rapid.T) propCase {
 			}
 			c.BlockQC = best
 		case 2:
-			c.BlockQC = rapid.SampledFrom([]int{cs.PoolB3Relabel, cs.PoolB3Resplit, cs.PoolRepeated, cs.PoolSubQuorum, cs.PoolGenesisSigned, cs.PoolNilSig}).Draw(rt, "twin")
+			c.BlockQC = rapid.SampledFrom([]int{cs.PoolB3Relabel, cs.PoolB3Resplit, cs.PoolRepeated, cs.PoolSubQuorum, cs.PoolGenesisSigned, cs.PoolNilSig, cs.PoolB3Retyped}).Draw(rt, "twin")
 		default:
 			c.BlockQC = rapid.IntRange(0, cs.PoolSize-1).Draw(rt, "pool")
 		}
 	return c
+}
+
+// TestC02PoolEncodingsDistinct: the bytes a certificate contributes to what others sign (timeout messages, block hashes)
+// tell apart any two prepared certificates that differ in validity, in the kind of their signature object or in their
+// signers - otherwise a signature over one is a signature over the other, and a collector can swap them.
+func TestC02PoolEncodingsDistinct(t *testing.T) {
+	type pc struct {
+		Scheme string
+		N      int
+	}
+	common.Exhaustive(t, id, "TestC02PoolEncodingsDistinct", func(yield func(pc) bool) {
+		for _, s := range kit.Schemes {
+			for n := 2; n <= 7; n++ {
+				if !yield(pc{s, n}) {
+					return
+				}
+			}
+		}
+	}, func(c pc) common.Result {
+		w := cs.GetWorld(c.Scheme, c.N)
+		kind := func(q hotstuff.QuorumCert) string {
+			if q.Signature() == nil {
+				return "no signature"
+			}
+			var ids []hotstuff.ID
+			q.Signature().Participants().ForEach(func(i hotstuff.ID) { ids = append(ids, i) })
+			return fmt.Sprintf("%T %v", q.Signature(), ids)
+		}
+		for i := 0; i < cs.PoolSize; i++ {
+			for j := i + 1; j < cs.PoolSize; j++ {
+				a, b := w.Pool[i], w.Pool[j]
+				if string(a.ToBytes()) != string(b.ToBytes()) {
+					continue
+				}
+				if w.PoolValid(i) != w.PoolValid(j) || kind(a) != kind(b) {
+					return common.Fail("certificates-encode-alike", "%s n=%d: the prepared certificates %q (valid %v, %s) and %q (valid %v, %s) have the same bytes-to-sign",
+						c.Scheme, c.N, poolNames[i], w.PoolValid(i), kind(a), poolNames[j], w.PoolValid(j), kind(b))
+				}
+			}
+		}
+		return common.OK(true, fmt.Sprintf("%s/%d", c.Scheme, c.N), "pool encodings")
+	})
 }
